@@ -263,17 +263,27 @@ func smRunCrashCase(t vk.TB, st *vk.Stats, c smCase, mode string) {
 		if f == nil && mode == "C10" && res.crashed {
 			// after redelivery the machine reaches the position of the run without the stop
 			switch {
+			case smHas(res.labels, "network-decided-two-blocks") || smHas(rres.labels, "network-decided-two-blocks"):
+				// only with the machine's own vote on top of a nearly complete second certificate; not a safe network
+				st.Label("join-skipped:network-decided-two-blocks")
 			case !rres.synced:
 				st.Label("join-skipped:reference-not-in-sync")
 			case res.mmDigest != rres.mmDigest:
 				st.Label("join-skipped:mirror-histories-differ")
 			case !res.synced && res.deadEnd != "":
 				st.Label("join-skipped:" + res.deadEnd)
+			case !res.synced && res.stranded && vk.Excluded(fidStranded):
+				st.Excluded(fidStranded)
+				st.Label("join-skipped:excluded:" + fidStranded)
 			case res.posH > rres.posH || (res.posH == rres.posH && res.posR > rres.posR):
 				// a timeout that elapsed only in the run with the stop took the machine past the reference position: nothing was lost
 				st.Label("joined-ahead-of-reference")
 			case !res.synced || res.posH != rres.posH || res.posR != rres.posR:
-				f = &smFailure{prop: "C10", clause: "not-rejoined", detail: fmt.Sprintf(
+				fid := ""
+				if res.stranded {
+					fid = fidStranded
+				}
+				f = &smFailure{prop: "C10", clause: "not-rejoined", finding: fid, detail: fmt.Sprintf(
 					"after the stop (%s) and redelivery the machine ends at %d/%d (in sync with the mirror: %v); without the stop it ends at %d/%d; entrances with stop: %s; without: %s",
 					res.crashInfo, res.posH, res.posR, res.synced, rres.posH, rres.posR, res.entrSeq, rres.entrSeq)}
 				res.tail = ""
@@ -297,6 +307,15 @@ func smRunCrashCase(t vk.TB, st *vk.Stats, c smCase, mode string) {
 	if fail != nil {
 		st.Fail(t, failCase, fail.finding, fail.clause, "[%s] %s\n--- last events ---\n%s", fail.prop, fail.detail, failTail)
 	}
+}
+
+func smHas(labels []string, l string) bool {
+	for _, x := range labels {
+		if x == l {
+			return true
+		}
+	}
+	return false
 }
 
 func smTest(t *testing.T, prop, name, mode, rule string) {
